@@ -5,6 +5,7 @@ from . import bp as B
 
 COUNTS = {}
 PENDING = []      # violations recorded by contracts: (name, info)
+CURRENT_TEST = [None]   # set by vf/pytest_plugin.py
 
 
 def _count(name):
@@ -106,10 +107,14 @@ class NodeMonitor(object):
         @functools.wraps(orig)
         def create_node(mgr, node_type, args, payload=None):
             n = orig(mgr, node_type, args, payload)
+            k = len(mon.problems)
             try:
                 mon.observe(mgr, node_type, args, payload, n)
             except Exception as e:     # monitor bug must not alter behaviour
                 mon.problems.append(('monitor-exception', repr(e), None))
+            if CURRENT_TEST[0] is not None and len(mon.problems) > k:
+                mon.problems[k:] = [p + (CURRENT_TEST[0],)
+                                    for p in mon.problems[k:]]
             return n
 
         FormulaManager.create_node = create_node
